@@ -69,6 +69,9 @@ MUTANTS = [
      "AegeanTools/fits_tools.py",
      "    # Do the interpolation\n",
      "    if lcx > 0:\n        rows[-1] = rows[-2] + lcx - 1\n    # Do the interpolation\n", "C15-R3"),
+    ("column count bumped by the row residual (seed C15d)",
+     "AegeanTools/fits_tools.py",
+     "    if lcy > 0:\n        ny += 1", "    if lcx > 0:\n        ny += 1", "C15-R5"),
 ]
 TWINS = [
     ("crpix rewritten", "AegeanTools/fits_tools.py",
@@ -373,6 +376,7 @@ def run(ctx):
     ctx.check("C15-R3", exp, "interpolator axes (rows, cols)", oki,
               "the interpolator must be built on (rows, cols) in that order",
               node=interp[0] if interp else exp.node)
+    r5_axes(ctx, prog, comp)
     # ---------------------------------------------------------------- R4
     ctx.rule("C15-R4", "compressed files are expanded before slicing; aux "
              "images are loaded through load_image_band and compared after "
@@ -418,3 +422,54 @@ def run(ctx):
               ok5, "_load_aux_image must load through load_image_band "
               "(transparent expansion) and compare the shape of its result",
               node=aux.node)
+
+
+def r5_axes(ctx, prog, comp):
+    """rows and columns of the decimated image are computed independently"""
+    from ..core import param_deps
+    ctx.rule("C15-R5", "axis separation in compress: the number of decimated "
+             "rows depends on the number of image rows only and the number "
+             "of decimated columns on the number of image columns only "
+             "(data and control dependence) -- a residual test on the other "
+             "axis makes the decimated array one too large / small whenever "
+             "exactly one axis length is a multiple of the factor")
+
+    def atom(x):
+        if isinstance(x, ast.Subscript) and isinstance(x.value, ast.Attribute) \
+                and x.value.attr == "shape" and \
+                isinstance(x.slice, ast.Constant) and x.slice.value in (0, 1):
+            return {"rows" if x.slice.value == 0 else "cols"}
+        if isinstance(x, ast.Subscript) and isinstance(x.slice, ast.Constant) \
+                and x.slice.value in ("NAXIS1", "NAXIS2"):
+            return {"cols" if x.slice.value == "NAXIS1" else "rows"}
+        return None
+    envs = []
+    param_deps(comp.node, atom=atom, control=True, envs=envs)
+    if not envs:
+        raise AnalysisError("C15-R5: compress has no return")
+    ret, env = sorted(envs, key=lambda t: t[0].lineno)[-1]
+    # the shape of the decimated array:  np.empty((A + 1, B + 1))
+    shp = None
+    for st in walk_no_nested(comp.node):
+        if isinstance(st, ast.Assign) and isinstance(st.value, ast.Call) and \
+                norm(st.value.func) in ("np.empty", "np.zeros", "numpy.empty",
+                                        "numpy.zeros") and st.value.args and \
+                isinstance(st.value.args[0], ast.Tuple) and \
+                len(st.value.args[0].elts) == 2:
+            shp = st.value.args[0].elts
+    if shp is None:
+        raise AnalysisError("C15-R5: decimated array allocation not found")
+    n = 0
+    for k, (e, own, other) in enumerate(((shp[0], "rows", "cols"),
+                                         (shp[1], "cols", "rows"))):
+        d = set()
+        for nm in names_in(e):
+            d |= env.get(nm, set())
+        d &= {"rows", "cols"}
+        n += 1
+        ctx.check("C15-R5", comp, "decimated %s %s depend on %s" %
+                  (own, norm(e), sorted(d)), d == {own},
+                  "the number of decimated %s (%s) depends on %s; it must "
+                  "depend on the image's %s only" % (own, norm(e), sorted(d),
+                                                     own), node=ret)
+    ctx.floor("C15-R5", n, 2, "axes of the decimated array")
